@@ -272,6 +272,62 @@ theorem switch_local_config (guard : Bool) (X : String) (pre post : List Switch)
           exact applySwitches_local guard X post o₁ o₂
             (diffOnly_setWarning guard X X _ _ o o o₁ o₂ true true d0 (Or.inr rfl) h₁ h₂)
 
+/-- one switch for class `X` changes the column only on warning entries of class `X` -/
+theorem diffOnly_one_switch (guard : Bool) (X : String) (b : Bool) (ov ov' : Overrides) (f : Bool)
+    (h : setWarning guard ov X b = .ok ov' f) : DiffOnly X ov ov' := by
+  intro j hj
+  have a := setWarningLoop_apply guard X b _ 0 ov false ov' f h j
+  rw [a] at hj
+  by_cases hr : 0 ≤ j ∧ j < 0 + LibErrors.tableSize
+  · simp only [hr, and_self, if_true] at hj
+    unfold newOverride at hj
+    by_cases hc : switchable j = true ∧ classOf j = some X
+    · exact ⟨hc.2, switchable_le hc.1⟩
+    · simp only [hc, if_false] at hj; exact absurd rfl hj
+  · simp only [hr, if_false] at hj; exact absurd rfl hj
+
+/-- **with and without a switch** — on a command line that already holds a switch (`p :: pre`): inserting `-w X` / `-i X` either is
+    refused (usage: `X` names no class) or changes the override column only on warning entries of class `X`.  (For the FIRST switch of a
+    command line this is false: see `C20_first_switch_enables_other_classes_witness`.) -/
+theorem switch_added_config (guard : Bool) (hg : guard = true) (X : String) (o : Sw) (p : Switch) (pre post : List Switch) :
+    match configure guard (p :: pre ++ post), configure guard (p :: pre ++ ⟨o, X⟩ :: post) with
+    | .ok ov₁, .ok ov₂ => DiffOnly X ov₁ ov₂
+    | _, .usage => True
+    | _, _ => False := by
+  have c₁ : ∀ l, configure guard ((p :: pre) ++ l) = applySwitches guard ((p :: pre) ++ l) initOverrides := by
+    intro l; simp [configure]
+  rw [c₁, c₁, applySwitches_prefix, applySwitches_prefix]
+  have nocrash : ∀ (l : List Switch) (ov : Overrides), applySwitches guard l ov ≠ .crash := by
+    intro l
+    induction l with
+    | nil => intro ov; simp [applySwitches]
+    | cons s ss ih =>
+      intro ov
+      simp only [applySwitches]
+      have := setWarning_guarded_no_crash ov s.name (s.opt = (if LibErrors.overrideLetter = 'w' then Sw.w else Sw.i)) hg
+      cases hsw : setWarning guard ov s.name (s.opt = (if LibErrors.overrideLetter = 'w' then Sw.w else Sw.i)) with
+      | crash => exact absurd hsw this
+      | ok o' f => cases f with
+        | false => simp
+        | true => simpa using ih o'
+  cases hp : applySwitches guard (p :: pre) initOverrides with
+  | crash => exact absurd hp (nocrash _ _)
+  | usage => simp
+  | ok ov =>
+    simp only [applySwitches]
+    have hnc := setWarning_guarded_no_crash ov X (o = (if LibErrors.overrideLetter = 'w' then Sw.w else Sw.i)) hg
+    cases hsw : setWarning guard ov X (o = (if LibErrors.overrideLetter = 'w' then Sw.w else Sw.i)) with
+    | crash => exact absurd hsw hnc
+    | ok ov' f =>
+      cases f with
+      | false => cases applySwitches guard post ov <;> simp
+      | true =>
+        simp only
+        have hd := diffOnly_one_switch guard X _ ov ov' true hsw
+        have hl := applySwitches_local guard X post ov ov' hd
+        cases h₁ : applySwitches guard post ov <;> cases h₂ : applySwitches guard post ov' <;>
+          simp only [h₁, h₂] at hl ⊢ <;> first | exact hl | trivial | exact absurd h₁ (nocrash _ _) | exact absurd h₂ (nocrash _ _)
+
 theorem warning_not_error {j : Nat} (h : severityOf j ≤ LibErrors.SEVERITY_WARNING) :
     ¬ severityOf j ≥ LibErrors.SEVERITY_ERROR ∧ ¬ severityOf j ≥ LibErrors.SEVERITY_EXIT ∧ ¬ severityOf j ≥ LibErrors.SEVERITY_DUMP := by
   have e0 : LibErrors.SEVERITY_WARNING < LibErrors.SEVERITY_ERROR := by decide
